@@ -2,7 +2,7 @@
 //! handlers. The tokio App has no connection timeout, so scripts run without idle steps (no 408 there).
 
 use crate::engine::{hash_of, pt, show, Ctx, Fail};
-use crate::props::c01::{arb_script, big_body, cors_for, describe, labels_of, log_request, pool_recovery, render_request, run_script, AppState, LogEntry, Script, Server, Step};
+use crate::props::c01::{arb_script, big_body, extras, huge_body, huge_response, cors_for, describe, labels_of, log_request, pool_recovery, render_request, run_script, AppState, LogEntry, Script, Server, Step};
 use crate::tserver::{self, TRunning};
 use humphrey::http::{Request, Response, StatusCode};
 use humphrey::App;
@@ -54,6 +54,7 @@ pub fn start_tokio(threads: usize, _timeout: bool, cors_kind: u8, ip: &str) -> R
             log_request(&st, &r);
             Response::new(StatusCode::OK, big_body())
         })
+        .with_route("/huge", |_r: Request, _st: Arc<AppState>| async move { Response::new(StatusCode::OK, huge_body().as_ref().clone()) })
         .with_cors_config("/cors", cors_for(cors_kind));
     let running = tserver::start(app, ip, threads.max(1))?;
     Ok(Box::new(TokioServer { running, st }))
@@ -111,6 +112,8 @@ pub fn run(ctx: &Ctx) {
             ctx.violation(f, "tokio-recovery", c);
         }
     }
+    // no connection timeout on tokio: only the late-read 8 MiB response
+    extras(ctx, "127.0.5", &start_tokio, false, "tokio-");
 }
 
 pub fn replay(_ctx: &Ctx, kind: &str, case: &J) -> Vec<Fail> {
@@ -119,6 +122,7 @@ pub fn replay(_ctx: &Ctx, kind: &str, case: &J) -> Vec<Fail> {
             Ok(s) => run_script(&s, "127.0.5.99", &start_tokio, false),
             Err(e) => vec![Fail::new("harness", format!("bad replay case: {}", e))],
         },
+        "tokio-extra" => huge_response(case["delay_ms"].as_u64().unwrap_or(150), "127.0.5.99", &start_tokio),
         "tokio-recovery" => pool_recovery(case["threads"].as_u64().unwrap_or(1) as usize, case["panics"].as_u64().unwrap_or(1) as usize, "127.0.5.99", &start_tokio),
         _ => vec![Fail::new("harness", format!("unknown replay kind {}", kind))],
     }
